@@ -126,7 +126,7 @@ struct Seen {   // one leaf (or default handler) invocation
 struct Instance {
   Tree tree;
   std::vector<std::unique_ptr<DynPorts>> tabs;        // by table id (nullptr if unused)
-  std::vector<std::vector<std::string>> metas;        // storage for metadata blocks
+  std::vector<std::vector<std::unique_ptr<char[]>>> metas;   // metadata blocks in exact-size heap blocks (ASan sees over-reads)
   std::vector<Seen> seen;
   bool record = true;
   bool built_hashfail[9] = {false};
@@ -166,10 +166,12 @@ struct Instance {
       std::vector<rtosc::Port> v;
       for (size_t i = 0; i < pt_.ports.size(); i++) {
         const PPort &pp = pt_.ports[i];
-        metas[(size_t)id].push_back(pp.meta + std::string(1, '\0'));
+        metas[(size_t)id].emplace_back(new char[pp.meta.size() + 1]);
+        memcpy(metas[(size_t)id].back().get(), pp.meta.data(), pp.meta.size());
+        metas[(size_t)id].back().get()[pp.meta.size()] = '\0';   // block = entries + terminating NUL
         rtosc::Port p;
         p.name = pp.name.c_str();
-        p.metadata = pp.meta.empty() ? "" : metas[(size_t)id].back().c_str();
+        p.metadata = metas[(size_t)id].back().get();
         int level = table_level(id);
         if (pp.subtree() && level < 2) {
           int child = table_id(level + 1, pp.kind - 1);
